@@ -13,6 +13,9 @@ K32 == INSTANCE Bip32 WITH KeyLen <- 32, IdxLen <- 4, HardMin <- 128, N <- SecpN
 
 AD == INSTANCE Address WITH Sha <- Sha256, Rip <- Ripemd160, H256 <- Hash256
 
+B39 == INSTANCE Bip39 WITH WordBits <- 11, CsRatio <- 32, EntSizes <- {128, 160, 192, 224, 256},
+                         Sha <- Sha256, Nfkd <- NfkdO, Pbkdf2 <- Pbkdf2O
+
 Trace == JsonDeserialize(IOEnv.TRACE_FILE)
 
 VARIABLE l
@@ -300,6 +303,71 @@ V_Hash(e) ==
        IN IF sv = "ok" THEN "ok" ELSE "ripemd-shell-" \o sv
 
 ---------------------------------------------------------------------------
+\* C04 sentences, C03 seeds and wallet constructors
+\* SHA-256 of BIP39's english.txt (2048 words, each followed by a newline)
+EnglishDigest == <<47,94,237,83,164,114,123,75,248,136,13,143,63,25,158,252,
+                   144,229,133,3,100,109,159,248,239,243,162,237,59,36,219,218>>
+
+V_Mnemonic(e) ==             \* e.inp = [hex]; e.res.v = [idx]
+  LET hp == B39!HexParse(e.inp.hex)
+      s == B39!Sentence(e, hp.bytes)
+  IN IF hp.kind = "bad" THEN (IF Raised(e) THEN "ok" ELSE "mnemonic-from-malformed-hex")
+     ELSE IF hp.kind = "spaced"
+          THEN IF Raised(e) THEN "ok"
+               ELSE IF s.ok /\ e.res.v.idx = s.idx THEN "ok"
+               ELSE "mnemonic-from-whitespace-hex-loses-or-invents-bits"
+     ELSE IF ~s.ok THEN (IF Raised(e) THEN "ok" ELSE "mnemonic-for-illegal-entropy-size")
+     ELSE IF Raised(e) THEN "mnemonic-raised-on-legal-entropy"
+     ELSE IF Len(e.res.v.idx) # B39!WordCount(hp.bytes) THEN "mnemonic-word-count"
+     ELSE IF \E i \in 1..Len(e.res.v.idx) : e.res.v.idx[i] < 0 THEN "mnemonic-word-not-in-list"
+     ELSE IF e.res.v.idx # s.idx
+          THEN LET d == B39!Decode(e.res.v.idx)
+               IN IF d.ent # hp.bytes THEN "mnemonic-entropy-bits" ELSE "mnemonic-checksum-bits"
+     ELSE "ok"
+
+LexLess(a, b) ==   \* strict lexicographic order on code-point sequences
+  \E n \in 0..Min2(Len(a), Len(b)) :
+     /\ SubSeq(a, 1, n) = SubSeq(b, 1, n)
+     /\ (n = Len(a) /\ n < Len(b)) \/ (n < Len(a) /\ n < Len(b) /\ a[n + 1] < b[n + 1])
+
+V_WordList(e) ==             \* e.words = the embedded list
+  LET w == e.words
+  IN IF Len(w) # 2048 THEN "wordlist-size"
+     ELSE IF \E i \in 1..2047 : ~LexLess(w[i], w[i + 1]) THEN "wordlist-order"
+     ELSE IF \E i \in 1..2047 : Take(w[i], 4) = Take(w[i + 1], 4) THEN "wordlist-prefix-not-unique"
+     ELSE IF Sha256(e, Flatten([i \in 1..2048 |-> w[i] \o <<10>>])) # EnglishDigest THEN "wordlist-digest"
+     ELSE "ok"
+
+V_Seed(e) ==                 \* e.inp = [m, p]
+  IF Raised(e) THEN "seed-raised"
+  ELSE IF e.res.v # B39!Seed(e, e.inp.m, e.inp.p) THEN "seed-value"
+  ELSE "ok"
+
+\* words of an index sequence, looked up in the table shipped with the event
+\* (entries of the embedded list; the list itself is pinned by V_WordList)
+WordOf(e, i) == e.wordtab[CHOOSE j \in 1..Len(e.wordtab) : e.wordtab[j].i = i].w
+
+\* e.inp = [route, net, ...]; e.res.v = [node, xprv, mnemonic, password]
+V_Construct(e) ==
+  LET r == e.inp.route
+      fromText(m, p) == K32!Master(e, B39!Seed(e, m, p), e.inp.net)
+      exp ==
+        CASE r = "mnemonic" -> fromText(e.inp.m, e.inp.p)
+          [] r = "entropy" ->
+               LET hp == B39!HexParse(e.inp.hex)
+                   s == B39!Sentence(e, hp.bytes)
+               IN IF hp.kind # "clean" \/ ~s.ok THEN K32!Invalid("illegal-entropy")
+                  ELSE fromText(B39!JoinWords([i \in 1..Len(s.idx) |-> WordOf(e, s.idx[i])]), e.inp.p)
+          [] r \in {"seed_hex", "seed_bytes"} -> K32!Master(e, e.inp.seed, e.inp.net)
+  IN IF exp.out # "ok" THEN (IF Raised(e) THEN "ok" ELSE "construct-wallet-from-" \o exp.why)
+     ELSE IF Raised(e) THEN "construct-raised-on-valid"
+     ELSE LET d == NodeDiff(exp.node, e.res.v.node)
+          IN IF d # "same" THEN "construct-" \o r \o "-" \o d
+             ELSE IF e.res.v.xprv # XprvStr(e, exp.node, DefaultVer("prv", e.inp.net)) THEN "construct-xprv-string"
+             ELSE IF e.res.v.wallet_net # e.inp.net THEN "construct-wallet-network"
+             ELSE "ok"
+
+---------------------------------------------------------------------------
 Verdict(e) ==
   CASE e.act = "Master" -> V_Master(e)
     [] e.act = "CkdPriv" -> V_CkdPriv(e)
@@ -318,6 +386,10 @@ Verdict(e) ==
     [] e.act = "Addr" -> V_Addr(e)
     [] e.act = "ScriptTpl" -> V_ScriptTpl(e)
     [] e.act = "Hash" -> V_Hash(e)
+    [] e.act = "Mnemonic" -> V_Mnemonic(e)
+    [] e.act = "WordList" -> V_WordList(e)
+    [] e.act = "Seed" -> V_Seed(e)
+    [] e.act = "Construct" -> V_Construct(e)
     [] OTHER -> "unknown-act"
 
 TraceInit == l = 1
